@@ -9,7 +9,13 @@ Correspondence: every operator tree over the union alphabet x every language mod
                as raw python str / bool                                 vs  (mk L op (Li gi)...)
   cast       - obj.cast_to(M) for every object that could be built      vs  (cast M (L f))
   guard      - CTL/LTL/CTLS.modelcheck(K, obj) and (K, text)            vs  (ctl K f) / (ltl K f) / (ctls L K f), (parse M text)
-  nonkripke  - modelcheck(<not a Kripke>, formula) must raise TypeError (monitored, no model needed)
+  nonkripke  - modelcheck(<not a Kripke>, formula[, F=...]) must raise TypeError (monitored, no model needed); the list
+               contains Kripke-LIKE objects (delegating wrapper, duck-typed class, labelled DiGraph subclass)
+  program    - EXPRESSIONS over objects / raw str / raw bool: constructors, the python operators & | ~ (both the direct
+               and the reflected form, chained), .clone(), .cast_to(M), objects built from raw operands; the value
+               is observed directly, cast to every module, or handed to a modelcheck function (with and without F)
+                                                                        vs  the same steps folded with (mk ..) / (cast ..)
+  names      - atoms NAMED like the printed form of a formula, interleaved with that formula in one session
 Observation = ('ok', tree_of(result), languages of ALL nodes) or ('err', exception enum).  The model's reading of the
 documented grammars (member bits, mk/cast/guard verdicts) is double-checked against the independent recognisers of
 common.py; a disagreement THERE is a machinery error (exception -> CHECK-ERROR), never a violation."""
@@ -20,7 +26,11 @@ LEVEL = 'proof'
 LANGS = ('PL', 'CTLS', 'CTL', 'LTL')
 CHECKERS = ('CTL', 'LTL', 'CTLS')
 LEAVES = (('ap', 'p'), ('true',))
+LEAVES4 = (('ap', 'p'), ('ap', 'q'), ('true',), ('false',))
 LEAFT = ('true', 'false', 'ap')
+RAWS = (('raw', 'p'), ('raw', 'q'), ('raw', True), ('raw', False))
+# fairness arguments (JSON-able: lists of lists of states of KD; handed to the library as lists of sets)
+FAIRS = ([[0]], [[1], [2]], [], [[0, 1, 2]], [[2], [0, 1]])
 OPS1 = UNARY            # not X F G A E
 OPS2 = BINARY           # imp U R
 OPSN = NARY             # or and  (2 and 3 operands)
@@ -87,6 +97,31 @@ def build(f, L):
     return cls(*kids)
 
 
+def raw_of(g):
+    return g[1] if g[0] == 'ap' else g[0] == 'true'
+
+
+def build_raw(f, L):
+    """same tree with the classes of module L, but every leaf operand is handed to its operator as a RAW python str / bool
+    (such objects keep height 0 above raw operands)"""
+    t = f[0]
+    if t in LEAFT:
+        return build(f, L)
+    kids = [raw_of(g) if g[0] in LEAFT else build_raw(g, L) for g in f[1:]]
+    cls = getattr(L, PYNAME[t], None)
+    if cls is None:
+        raise MissingClass(PYNAME[t])
+    return cls(*kids)
+
+
+def build_mode(f, L, mode):
+    return build_raw(f, L) if mode == 'raw' else build(f, L)
+
+
+def fair_arg(F):
+    return None if F is None else [set(c) for c in F]
+
+
 def read_obj(o):
     try:
         return ('ok', tree_of(o), sorted(langs_in(o)))
@@ -115,8 +150,9 @@ def impl_construct(Ln, f):
 
 
 def impl_apply(Ln, op, operands):
-    """operands: ('raw', 'p') | ('raw', True) | ('obj', Li, tree).  The operand objects are built first (they are
-    chosen buildable); only the application of L's operator is observed."""
+    """operands: ('raw', 'p') | ('raw', True) | ('obj', Li, tree) | ('rawobj', Li, tree) = object built from raw leaf
+    operands.  The operand objects are built first (they are chosen buildable); only the application of L's operator
+    is observed."""
     L = lang_module(Ln)
     args, before = [], []
     for od in operands:
@@ -124,7 +160,7 @@ def impl_apply(Ln, op, operands):
             args.append(od[1])
             before.append(None)
         else:
-            a = build(od[2], lang_module(od[1]))
+            a = build_mode(od[2], lang_module(od[1]), 'raw' if od[0] == 'rawobj' else 'obj')
             args.append(a)
             before.append(read_obj(a))
 
@@ -138,9 +174,9 @@ def impl_apply(Ln, op, operands):
     return obs, o, missing, untouched
 
 
-def impl_cast(Ln, f, Mn, o=None):
+def impl_cast(Ln, f, Mn, o=None, mode='obj'):
     if o is None:
-        o = build(f, lang_module(Ln))
+        o = build_mode(f, lang_module(Ln), mode)
     before = ('ok', f, [Ln])
     M = lang_module(Mn)
     obs, o2, _ = guarded(lambda: o.cast_to(M))
@@ -165,12 +201,13 @@ def canon_mc(r):
     return ('err', r[1])
 
 
-def impl_guard(Mn, K, arg, text=False):
+def impl_guard(Mn, K, arg, text=False, F=None):
     M = lang_module(Mn)
+    kw = {} if F is None else {'F': fair_arg(F)}
     if text:
         P = parser_of(Mn)
-        return canon_mc(call(lambda: M.modelcheck(K, arg, parser=P)))
-    return canon_mc(call(lambda: M.modelcheck(K, arg)))
+        return canon_mc(call(lambda: M.modelcheck(K, arg, parser=P, **kw)))
+    return canon_mc(call(lambda: M.modelcheck(K, arg, **kw)))
 
 
 # ----------------------------------------------------------------------------------------
@@ -302,10 +339,15 @@ class Judge:
         self.bad(what, d)
         return False
 
-    def guard(self, data, impl, model, conservative_ok=False):
+    def guard(self, data, impl, model, conservative_ok=False, sets=True):
+        """sets=False (a fairness argument F was given): only accepted / rejected (+ the exception) is compared; WHICH
+        states a fair checker returns is property C15"""
         R = self.R
         R.evaluations += 1
-        key = 'guard:%s(%s)' % (data['checker'], data.get('lang', 'text'))
+        if not sets:
+            impl = ('ok', '<a set>') if impl[0] == 'ok' else impl
+            model = ('ok', '<a set>') if model[0] == 'ok' else model
+        key = 'guard%s:%s(%s)' % ('' if sets else '+F', data['checker'], data.get('lang', 'text'))
         self.hist[key]['set' if impl[0] == 'ok' else impl[1]] += 1
         d = dict(data, impl=impl, model=model)
         if tuple(impl) == tuple(model):
@@ -328,8 +370,296 @@ class Judge:
 
 
 # ----------------------------------------------------------------------------------------
+# programs: expressions over objects, raw operands, constructors, the operators & | ~, clone, cast_to
+#   ('obj', Li, tree, mode)  object of module Li built bottom-up (mode 'raw': its leaf operands were raw str / bool)
+#   ('raw', v)               a raw python str / bool (only as an operand)
+#   ('ctor', L, op, e...)    L.Op(e...)
+#   ('and'|'or', a, b)       a & b, a | b   (python dispatch: a's method, the reflected method of b when a is raw)
+#   ('inv', a)  ~a           ('clone', a)  a.clone()           ('cast', M, a)  a.cast_to(M)
+# ----------------------------------------------------------------------------------------
+def ekids(e):
+    k = e[0]
+    if k in ('obj', 'raw'):
+        return ()
+    if k == 'ctor':
+        return e[3:]
+    if k == 'cast':
+        return e[2:3]
+    return e[1:]
+
+
+def impl_expr(e):
+    k = e[0]
+    if k == 'obj':
+        return build_mode(e[2], lang_module(e[1]), e[3])
+    if k == 'raw':
+        return e[1]
+    if k == 'ctor':
+        cls = getattr(lang_module(e[1]), PYNAME[e[2]], None)
+        if cls is None:
+            raise MissingClass(PYNAME[e[2]])
+        return cls(*[impl_expr(x) for x in e[3:]])
+    if k == 'and':
+        return impl_expr(e[1]) & impl_expr(e[2])
+    if k == 'or':
+        return impl_expr(e[1]) | impl_expr(e[2])
+    if k == 'inv':
+        return ~impl_expr(e[1])
+    if k == 'clone':
+        return impl_expr(e[1]).clone()
+    if k == 'cast':
+        return impl_expr(e[2]).cast_to(lang_module(e[1]))
+    raise ValueError(k)
+
+
+def impl_program(e):
+    """-> observation, object"""
+    obs, o, _ = guarded(lambda: impl_expr(e))
+    return obs, o
+
+
+def estr(e):
+    k = e[0]
+    if k == 'obj':
+        return '<%s object %s%s>' % (e[1], fstr(e[2]), ' built from raw operands' if e[3] == 'raw' else '')
+    if k == 'raw':
+        return repr(e[1])
+    if k == 'ctor':
+        return '%s.%s(%s)' % (e[1], PYNAME[e[2]], ', '.join(estr(x) for x in e[3:]))
+    if k in ('and', 'or'):
+        return '(%s %s %s)' % (estr(e[1]), '&' if k == 'and' else '|', estr(e[2]))
+    if k == 'inv':
+        return '~' + estr(e[1])
+    if k == 'clone':
+        return estr(e[1]) + '.clone()'
+    return '%s.cast_to(%s)' % (estr(e[2]), e[1])
+
+
+def raw_tree(v):
+    return ('ap', v) if isinstance(v, str) else (('true',) if v else ('false',))
+
+
+def model_eval(exprs, MB):
+    """model of the programs: every step is one (mk L op ...) / (cast M ...) of the proved model; an exception of a
+    sub-expression propagates (python evaluates operands left to right).
+    -> val: expr -> ('ok', L, tree) | ('err', E) | ('raw', v);  step: expr -> module in which the last step runs"""
+    val, step, hs = {}, {}, {}
+
+    def height(e):
+        if e not in hs:
+            hs[e] = 0 if e[0] in ('obj', 'raw') else 1 + max(height(x) for x in ekids(e))
+        return hs[e]
+    for e in exprs:
+        height(e)
+    model_build_all([(e[1], e[2]) for e in hs if e[0] == 'obj'], MB)
+    levels = collections.defaultdict(list)
+    for e, h in hs.items():
+        levels[h].append(e)
+
+    def arg(L, v):
+        return [L, fsx(raw_tree(v[1]))] if v[0] == 'raw' else [v[1], fsx(v[2])]
+
+    def tre(v):
+        return raw_tree(v[1]) if v[0] == 'raw' else v[2]
+    for h in sorted(levels):
+        cmds, es, chk = [], [], []
+        for e in levels[h]:
+            k = e[0]
+            if k == 'raw':
+                val[e] = ('raw', e[1])
+                continue
+            if k == 'obj':
+                m = MB[(e[1], e[2])]
+                val[e] = ('ok', e[1], e[2]) if m[0] == 'ok' else m
+                step[e] = e[1]
+                continue
+            vs = [val[x] for x in ekids(e)]
+            bad = next((v for v in vs if v[0] == 'err'), None)
+            if k == 'ctor':
+                step[e] = e[1]
+            elif k == 'cast':
+                step[e] = e[1]
+            else:
+                lead = next((v for v in vs if v[0] == 'ok'), None)
+                step[e] = lead[1] if lead else '-'
+            if bad is not None:
+                val[e] = bad
+                continue
+            L = step[e]
+            if k == 'clone':
+                val[e] = vs[0]
+                continue
+            if k == 'cast':
+                cmds.append(['cast', L, arg(L, vs[0])])
+                chk.append((L, vs[0][2]))
+            else:
+                op = e[2] if k == 'ctor' else ('not' if k == 'inv' else k)
+                cmds.append(['mk', L, op] + [arg(L, v) for v in vs])
+                chk.append((L, (op,) + tuple(tre(v) for v in vs)))
+            es.append(e)
+        for e, c, o in zip(es, chk, model_batch_parallel(cmds) if cmds else []):
+            m = model_built(o)
+            machinery((m[0] == 'ok') == pymember(*c), 'program step %s: %s %s -> %s' % (estr(e), c[0], fstr(c[1]), m[0]))
+            val[e] = ('ok', m[2][0], m[1]) if m[0] == 'ok' else m
+    return val, step
+
+
+def model_obs(v):
+    return ('ok', v[2], [v[1]]) if v[0] == 'ok' else tuple(v)
+
+
+def gen_chain(rng, opnds_by_lang, opnds_all):
+    """a & b | c ...: 2-4 operands joined by the python operators, left- and right-nested, direct and reflected; most
+    operands come from one home module, some from the others, some are raw"""
+    home = rng.choice(LANGS)
+
+    def opnd(raw_ok):
+        x = rng.random()
+        if raw_ok and x < 0.2:
+            return rng.choice(RAWS)
+        return rng.choice(opnds_by_lang[home]) if x < 0.75 else rng.choice(opnds_all)
+    e = opnd(False)
+    for _ in range(rng.choice((1, 2, 2, 3))):
+        o = opnd(True)
+        op = rng.choice(('and', 'or'))
+        e = (op, e, o) if rng.random() < 0.7 else (op, o, e)
+        x = rng.random()
+        if x < 0.12:
+            e = ('inv', e)
+        elif x < 0.2:
+            e = ('clone', e)
+    return e
+
+
+def render(rng, f, L, builtset):
+    """one way of writing the tree f as a program, mostly in module L: constructors or operators, object or raw leaves,
+    ready-made sub-objects, clones and casts in between"""
+    t = f[0]
+    Li = L if rng.random() < 0.85 else rng.choice(LANGS)
+    if t in LEAFT:
+        return ('obj', Li, f, 'obj')
+    if fheight(f) <= 1 and rng.random() < 0.3 and (Li, f) in builtset:
+        return ('obj', Li, f, rng.choice(('obj', 'raw')))
+    kids = [('raw', raw_of(g)) if g[0] in LEAFT and rng.random() < 0.35 else render(rng, g, L, builtset) for g in f[1:]]
+    if t == 'not' and kids[0][0] != 'raw' and rng.random() < 0.6:
+        e = ('inv', kids[0])
+    elif t in ('and', 'or') and not (kids[0][0] == 'raw' and kids[1][0] == 'raw') and rng.random() < 0.7:
+        e = kids[0]
+        for k in kids[1:]:
+            e = (t, e, k)
+    else:
+        e = ('ctor', Li, t) + tuple(kids)
+    x = rng.random()
+    if x < 0.08:
+        e = ('clone', e)
+    elif x < 0.14:
+        e = ('cast', rng.choice(LANGS), e)
+    return e
+
+
+# ----------------------------------------------------------------------------------------
+# things that are not Kripke structures (by name, so that a recorded case can be replayed)
+# ----------------------------------------------------------------------------------------
+def non_kripkes():
+    from pyModelChecking.graph import DiGraph
+    from pyModelChecking import Kripke
+    real = kd_py(KD)
+
+    class Recorder(object):
+        """a logging wrapper: delegates every attribute to a real Kripke structure"""
+        def __init__(self, k):
+            self._k = k
+
+        def __getattr__(self, name):
+            return getattr(self._k, name)
+
+    class Duck(object):
+        """the methods of a Kripke structure, no inheritance"""
+        def __init__(self, k):
+            self._k = k
+
+        def states(self):
+            return self._k.states()
+
+        def nodes(self):
+            return self._k.nodes()
+
+        def edges(self):
+            return self._k.edges()
+
+        def next(self, v):
+            return self._k.next(v)
+
+        def labels(self, *a):
+            return self._k.labels(*a)
+
+        def clone(self):
+            return Duck(self._k.clone())
+
+        def label_fair_states(self, F):
+            return self._k.label_fair_states(F)
+
+        def get_reversed_graph(self):
+            return self._k.get_reversed_graph()
+
+    class LabelledGraph(DiGraph):
+        """a DiGraph subclass with states()/labels() (a DiGraph, not a Kripke)"""
+        def __init__(self, k):
+            DiGraph.__init__(self, V=list(k.states()), E=list(k.edges()))
+            self._k = k
+
+        def states(self):
+            return self.nodes()
+
+        def labels(self, *a):
+            return self._k.labels(*a)
+
+        def clone(self):
+            return LabelledGraph(self._k)
+
+        def label_fair_states(self, F):
+            return self._k.clone().label_fair_states(F)
+    import types
+    ns = types.SimpleNamespace(**{n: getattr(real, n) for n in dir(real) if not n.startswith('__') and callable(getattr(real, n))})
+    return [('None', None), ('int', 0), ('str', 'K'), ('dict', {}), ('list', [(0, 0)]), ('DiGraph', DiGraph(V=[0], E=[(0, 0)])),
+            ('class Kripke', Kripke), ('object', object()),
+            ('wrapper delegating every attribute to a Kripke via __getattr__', Recorder(real)),
+            ('duck-typed class with the Kripke methods', Duck(real)),
+            ('DiGraph subclass with states() and labels()', LabelledGraph(real)),
+            ('namespace holding the bound methods of a Kripke', ns),
+            ('tuple (S, S0, R, L)', ([0, 1], [0], [(0, 1), (1, 0)], {0: ['p'], 1: []}))]
+
+
+NONK_GOOD = {'CTL': ('A', ('G', ('ap', 'p'))), 'LTL': ('A', ('G', ('ap', 'p'))), 'CTLS': ('A', ('G', ('F', ('ap', 'p'))))}
+NONK_EXTRA = {'CTL': ('E', ('X', ('ap', 'p'))), 'LTL': ('A', ('X', ('ap', 'p'))), 'CTLS': ('or', ('ap', 'p'), ('E', ('X', ('ap', 'p'))))}
+
+
+def nonk_arg(Mn, Ln, arg_kind):
+    if arg_kind == 'object':
+        return build(NONK_GOOD[Mn], lang_module(Ln))
+    if arg_kind == 'text':
+        return str(build(NONK_GOOD[Mn], lang_module('CTLS')))
+    if arg_kind == 'object2':
+        return build_raw(NONK_EXTRA[Mn], lang_module(Ln))
+    if arg_kind == 'atom':
+        return build(('ap', 'p'), lang_module(Ln))
+    if arg_kind == 'text-atom':
+        return 'p'
+    return build(('X', ('ap', 'p')), lang_module(Ln))
+
+
+NONK_KINDS = ('object', 'text', 'bad-object', 'object2', 'atom', 'text-atom')
+
+
+# ----------------------------------------------------------------------------------------
 # case generation
 # ----------------------------------------------------------------------------------------
+def relabel(rng, f):
+    if f[0] in LEAFT:
+        return rng.choice(LEAVES4)
+    return (f[0],) + tuple(relabel(rng, g) for g in f[1:])
+
+
 def nary3(pool):
     return [(t, a, b, c) for t in OPSN for a in pool for b in pool for c in pool]
 
@@ -377,7 +707,17 @@ def run(R):
               'members of one logic; x 4 language modules x {construct bottom-up, cast_to each module, each modelcheck on a fixed 3-state structure as '
               'object and as text}; apply = one operator on operands built in other modules / raw str / raw bool (unary exhaustive over depth <= 1 '
               'operands, the rest sampled in quick); compared: success + tree + language module of every node, or exception enum; '
-              'non-trivial = the tree is not propositional (so the four logics disagree about it)')
+              'non-trivial = the tree is not propositional (so the four logics disagree about it).  ALSO: the same shapes over the leaves '
+              '{p, q, true, false} (depth <= 1 complete, 1000 / 6000 deeper ones); construct / cast sources / apply operands / guard arguments built '
+              'from RAW str / bool leaf operands (mode raw); PROGRAMS = expressions over ready objects (object- and raw-built, every module), raw '
+              'operands, constructors, the python operators & | ~ in direct and reflected form (all pairs over a pool of atoms, constants, state, path '
+              'and quantified formulas of every module + raw operands; random chains of 2-4 operands, left and right nested; trees re-written with '
+              'operators), .clone() and .cast_to(M) in between; each program is folded step by step with the model (mk / cast), its value is compared, '
+              'and a sample is handed to the three modelcheck functions; guards (objects, text, programs) and the non-Kripke cases also run WITH a '
+              'fairness argument F (5 shapes; then accepted / rejected + exception are compared, the returned states are C15); non-Kripke first '
+              'arguments include Kripke-LIKE objects (delegating wrapper, duck-typed class, DiGraph subclass with labels, namespace of bound methods) x '
+              '6 formula arguments x 4 values of F; NAMES = sessions in which a formula, then atoms named like its printed form (alone, negated, in a '
+              'disjunction), then the formula again are cast to every module and guarded, plus fixed odd names (true, not p, A(X(p)), the empty name)')
 
     # ---- 0. corpus of past defects (D12, D13) ----------------------------------------------
     run_apply(R, J, [(c['lang'], c['op'], c['operands']) for c in CORPUS], corpus=True)
@@ -393,8 +733,21 @@ def run(R):
     members = {L: [f for f in d2 if pymember(L, f)] for L in LANGS}
     d3 = gen_depth3(rng, 40000 if R.thorough else 2500, d2, members)
     trees = d2 + t3_1 + t3_2 + d3
+    # the same shapes over the leaves {p, q, true, false}: every tree of depth <= 1 (binary and ternary), deeper ones sampled
+    seen_t = set(trees)
+    d1x = [f for f in all_trees(1, LEAVES4, OPS1, OPS2, OPSN) + nary3(list(LEAVES4)) if f not in seen_t]
+    seen_t.update(d1x)
+    variants = []
+    src_v = d2[len(d1):] + t3_2 + d3
+    while len(variants) < (6000 if R.thorough else 1000):
+        g = relabel(rng, rng.choice(src_v))
+        if g not in seen_t and any(x in (('false',), ('ap', 'q')) for x in subformulas(g)):
+            seen_t.add(g)
+            variants.append(g)
+    trees = trees + d1x + variants
     assert len(set(trees)) == len(trees)
-    R.cov['trees'] = {'depth<=2 binary (exhaustive)': len(d2), 'ternary depth 1': len(t3_1), 'ternary depth 2': len(t3_2), 'depth 3 sampled': len(d3)}
+    R.cov['trees'] = {'depth<=2 binary (exhaustive)': len(d2), 'ternary depth 1': len(t3_1), 'ternary depth 2': len(t3_2), 'depth 3 sampled': len(d3),
+                      'depth<=1 over the leaves p,q,true,false (exhaustive, new ones)': len(d1x), 'deeper shapes with leaves redrawn from p,q,true,false': len(variants)}
     R.cov['recogniser_cross_checks'] = check_recognisers(trees)
 
     mark('trees+recognisers')
@@ -414,22 +767,36 @@ def run(R):
             if obs[0] == 'err' and fheight(f) == 2:
                 R.sample({'construct': '%s: %s' % (Ln, fstr(f)), 'outcome': obs[1]}, limit=2)
     R.cov['missing_class_counted_as_TypeError'] = missing
+    # the same constructions with the leaf operands given as RAW python str / bool
+    rkeys = [k for k in keys if fheight(k[1]) >= 1]
+    rkeys = [k for k in rkeys if fheight(k[1]) == 1] + rng.sample([k for k in rkeys if fheight(k[1]) > 1], 20000 if R.thorough else 1800)
+    for (Ln, f) in rkeys:
+        L = lang_module(Ln)
+        obs, o, _ = guarded(lambda: build_raw(f, L))
+        ok = J.built('construct', {'lang': Ln, 'tree': f, 'tree_str': fstr(f), 'mode': 'raw'}, obs, MB[(Ln, f)])
+        if ok and not is_pl(f):
+            R.nontriv(('construct-raw', Ln, f))
 
     mark('construct')
     # ---- 3. cast_to ----------------------------------------------------------------------
     cast_src = built if R.thorough else [b for b in built if fheight(b[1]) <= 2] + rng.sample([b for b in built if fheight(b[1]) > 2], min(600, sum(1 for b in built if fheight(b[1]) > 2)))
-    cases = [(Ln, f, Mn) for (Ln, f) in cast_src for Mn in LANGS]
-    outs = model_batch_parallel([['cast', Mn, [Ln, fsx(f)]] for (Ln, f, Mn) in cases])
+    cases = [(Ln, f, Mn, 'obj') for (Ln, f) in cast_src for Mn in LANGS]
+    # sources built from RAW leaf operands (their height attribute stays 0 above the raw operands)
+    raw_src = [b for b in cast_src if fheight(b[1]) >= 1]
+    raw_src = [b for b in raw_src if fheight(b[1]) == 1] + rng.sample([b for b in raw_src if fheight(b[1]) > 1], 12000 if R.thorough else 1100)
+    cases += [(Ln, f, Mn, 'raw') for (Ln, f) in raw_src for Mn in LANGS]
+    ucases = list(dict.fromkeys(c[:3] for c in cases))
+    mcast = dict(zip(ucases, model_batch_parallel([['cast', Mn, [Ln, fsx(f)]] for (Ln, f, Mn) in ucases])))
     src_obj, src_key = None, None
-    for (Ln, f, Mn), o in zip(cases, outs):
-        m = model_built(o)
+    for (Ln, f, Mn, mode) in cases:
+        m = model_built(mcast[(Ln, f, Mn)])
         machinery((m[0] == 'ok') == pymember(Mn, f), 'cast %s %s -> %s' % (Mn, fstr(f), m[0]))
-        if src_key != (Ln, f):       # one source object, cast to the four modules in turn
-            src_obj, src_key = build(f, lang_module(Ln)), (Ln, f)
+        if src_key != (Ln, f, mode):       # one source object, cast to the four modules in turn
+            src_obj, src_key = build_mode(f, lang_module(Ln), mode), (Ln, f, mode)
         obs, same = impl_cast(Ln, f, Mn, src_obj)
-        ok = J.built('cast', {'lang': Ln, 'target': Mn, 'tree': f, 'tree_str': fstr(f)}, obs, m, untouched=same)
+        ok = J.built('cast', {'lang': Ln, 'target': Mn, 'tree': f, 'tree_str': fstr(f), 'mode': mode}, obs, m, untouched=same)
         if ok and not is_pl(f) and Ln != Mn:
-            R.nontriv(('cast', Ln, Mn, f))
+            R.nontriv(('cast', Ln, Mn, f, mode))
             if obs[0] == 'ok' and fheight(f) == 2 and Mn in ('CTL', 'LTL'):
                 R.sample({'cast': '%s object %s -> %s' % (Ln, fstr(f), Mn), 'outcome': 'same tree, all nodes ' + Mn}, limit=4)
 
@@ -449,10 +816,18 @@ def run(R):
             acases += [(Ln, op, [a, b, c]) for a in raws[::2] for b in raws[1::2] for c in raws[:3]]
     opnd1 = [('obj', Li, g) for (Li, g) in objs1]
     opnd2 = [('obj', Li, g) for (Li, g) in objs2]
+    # operands that were themselves built from raw str / bool operands
+    ropnd1 = [('rawobj', Li, g) for (Li, g) in objs1 if fheight(g) == 1]
+    ropnd2 = [('rawobj', Li, g) for (Li, g) in objs2]
+    for Ln in LANGS:
+        for op in OPS1:
+            acases += [(Ln, op, [od]) for od in (ropnd1 if R.thorough else rng.sample(ropnd1, 150))]
     if R.thorough:
+        p1 = set(pool1)         # all pairs over the depth <= 1 operands with leaves p / true; the {p, q, true, false} ones are sampled below
+        opnd1p = [od for od in opnd1 if od[2] in p1]
         for Ln in LANGS:
             for op in OPS2 + OPSN:
-                acases += [(Ln, op, [a, b]) for a in opnd1 for b in opnd1]
+                acases += [(Ln, op, [a, b]) for a in opnd1p for b in opnd1p]
     nrand = 60000 if R.thorough else 7000
     for _ in range(nrand):
         Ln = rng.choice(LANGS)
@@ -461,11 +836,18 @@ def run(R):
         ods = []
         for _i in range(k):
             x = rng.random()
-            ods.append(rng.choice(raws) if x < 0.15 else (rng.choice(opnd1) if x < 0.6 else rng.choice(opnd2)))
+            y = rng.random() < 0.25
+            ods.append(rng.choice(raws) if x < 0.15 else (rng.choice(ropnd1 if y else opnd1) if x < 0.6 else rng.choice(ropnd2 if y else opnd2)))
         acases.append((Ln, op, ods))
     run_apply(R, J, acases)
 
     mark('apply')
+    # ---- 4b. programs: constructors, & | ~ (direct, reflected, chained), clone, cast_to, raw-built objects ----
+    run_programs(R, J, rng, MB, built, objs1, objs2, members, trees, K, ks)
+    mark('programs')
+    # ---- 4c. atoms named like the printed form of a formula, interleaved with that formula -------------------
+    run_names(R, J, rng, built, K, ks)
+    mark('names')
     # ---- 5. modelcheck guards --------------------------------------------------------------
     gobjs = [b for b in built if fheight(b[1]) <= 1]
     rest = [b for b in built if fheight(b[1]) == 2]
@@ -505,6 +887,24 @@ def run(R):
             R.nontriv(('guard', Mn, Ln, f))
             if m[0] == 'ok' and fheight(f) == 2 and 0 < len(m[1]) < 3:
                 R.sample({'modelcheck': '%s.modelcheck(K, %s object %s)' % (Mn, Ln, fstr(f)), 'result': m[1]}, limit=8)
+    # the same guards WITH a fairness argument F and / or on objects built from RAW leaf operands: which arguments a checker accepts
+    # does not depend on F (with F only accepted / rejected + the exception is compared; the returned states are property C15)
+    mg = dict(zip(gcases, outs))
+    acc = [c for c in gcases if mg[c][0] == 'ok']
+    rej = [c for c in gcases if mg[c][0] != 'ok']
+    fsub = rng.sample(acc, min(len(acc), 12000 if R.thorough else 1300)) + rng.sample(rej, min(len(rej), 10000 if R.thorough else 1100))
+    for (Mn, Ln, f) in fsub:
+        mode = rng.choice(('obj', 'raw')) if fheight(f) >= 1 else 'obj'
+        F = rng.choice(FAIRS) if mode == 'obj' or rng.random() < 0.6 else None
+        m = model_mc(mg[(Mn, Ln, f)])
+        obs = impl_guard(Mn, K, build_mode(f, lang_module(Ln), mode), F=F)
+        if kripke_snapshot(K) != ksnap:
+            J.bad('modelcheck modified its arguments', {'kind': 'guard', 'checker': Mn, 'lang': Ln, 'tree': f, 'tree_str': fstr(f), 'F': F, 'mode': mode}, no_input=True)
+            K = kd_py(KD)
+        cons = (Mn == 'LTL' and Ln == 'CTL') or (Mn == 'CTLS' and Ln == 'PL')
+        ok = J.guard({'kind': 'guard', 'checker': Mn, 'lang': Ln, 'tree': f, 'tree_str': fstr(f), 'F': F, 'mode': mode}, obs, m, conservative_ok=cons, sets=F is None)
+        if ok and not is_pl(f):
+            R.nontriv(('guard', Mn, Ln, f, mode, str(F)))
     # the same guards on DEGENERATE structures (no state at all; one state): which formulas a checker accepts does not depend on K
     from pyModelChecking.kripke import Kripke as _Kripke
     small = [('the empty structure Kripke()', _Kripke()), ('a one-state structure', _Kripke(R=[(0, 0)], L={0: ['p']}))]
@@ -537,31 +937,32 @@ def run(R):
         ok = J.guard({'kind': 'guard_text', 'checker': Mn, 'text': s, 'tree': f}, obs, m)
         if ok and not is_pl(f):
             R.nontriv(('guard_text', Mn, s))
+    for i in rng.sample(range(len(tcases)), min(len(tcases), 3000 if R.thorough else 400)):
+        (Mn, f, s) = tcases[i]
+        F = rng.choice(FAIRS)
+        m = ('err', str(pouts[i][1])) if parsed[i] is None else mres[i]
+        ok = J.guard({'kind': 'guard_text', 'checker': Mn, 'text': s, 'tree': f, 'F': F}, impl_guard(Mn, K, s, text=True, F=F), m, sets=False)
+        if ok and not is_pl(f):
+            R.nontriv(('guard_text', Mn, s, str(F)))
     mark('guard text')
-    # a non-Kripke first argument
-    from pyModelChecking.graph import DiGraph
-    from pyModelChecking import Kripke
-    nonk = [('None', None), ('int', 0), ('str', 'K'), ('dict', {}), ('list', [(0, 0)]), ('DiGraph', DiGraph(V=[0], E=[(0, 0)])),
-            ('class Kripke', Kripke), ('object', object())]
-    good = {'CTL': ('A', ('G', ('ap', 'p'))), 'LTL': ('A', ('G', ('ap', 'p'))), 'CTLS': ('A', ('G', ('F', ('ap', 'p'))))}
+    # a non-Kripke first argument (among them Kripke-LIKE objects), with and without a fairness argument
+    nonk = non_kripkes()
+    R.cov['non_kripke_first_arguments'] = [nm for nm, _ in nonk]
     for Mn in CHECKERS:
         for nm, X in nonk:
             for Ln in ('CTLS', Mn):
-                for arg_kind in ('object', 'text', 'bad-object'):
-                    if arg_kind == 'object':
-                        arg = build(good[Mn], lang_module(Ln))
-                    elif arg_kind == 'text':
-                        arg = str(build(good[Mn], lang_module('CTLS')))
-                    else:
-                        arg = build(('X', ('ap', 'p')), lang_module(Ln))
-                    obs = impl_guard(Mn, X, arg, text=(arg_kind == 'text'))
-                    R.evaluations += 1
-                    J.hist['nonkripke:' + Mn][obs[1] if obs[0] == 'err' else 'set'] += 1
-                    if tuple(obs) != ('err', 'TypeError'):
-                        J.bad('%s.modelcheck(<%s>, ...) did not raise TypeError' % (Mn, nm),
-                              {'kind': 'nonkripke', 'checker': Mn, 'first_argument': nm, 'lang': Ln, 'formula': arg_kind, 'impl': obs, 'model': ('err', 'TypeError')})
-                    else:
-                        R.nontriv(('nonkripke', Mn, nm, Ln, arg_kind))
+                for arg_kind in NONK_KINDS:
+                    for F in (None, [[0]], [], [[0, 1]]):
+                        arg = nonk_arg(Mn, Ln, arg_kind)
+                        obs = impl_guard(Mn, X, arg, text=arg_kind.startswith('text'), F=F)
+                        R.evaluations += 1
+                        J.hist['nonkripke:' + Mn][obs[1] if obs[0] == 'err' else 'set'] += 1
+                        if tuple(obs) != ('err', 'TypeError'):
+                            J.bad('%s.modelcheck(<%s>, ...%s) did not raise TypeError' % (Mn, nm, '' if F is None else ', F=...'),
+                                  {'kind': 'nonkripke', 'checker': Mn, 'first_argument': nm, 'lang': Ln, 'formula': arg_kind, 'F': F, 'impl': obs,
+                                   'model': ('err', 'TypeError')})
+                        else:
+                            R.nontriv(('nonkripke', Mn, nm, Ln, arg_kind, str(F)))
 
     # ---- 6. informational: operands that are not formulas at all (outside the property's quantifier) ---------
     info = collections.Counter()
@@ -581,6 +982,176 @@ def run(R):
     R.exhaustive = False   # depth <= 2 with binary or/and is complete; ternary/depth 3/apply are sampled
 
 
+def expr_temporal(e):
+    if e[0] == 'raw':
+        return False
+    if e[0] == 'obj':
+        return not is_pl(e[2])
+    return (e[0] == 'ctor' and e[2] in TEMPORAL + ('A', 'E')) or any(expr_temporal(x) for x in ekids(e))
+
+
+def cons_guard(Mn, Ln):
+    return (Mn == 'LTL' and Ln == 'CTL') or (Mn == 'CTLS' and Ln == 'PL')
+
+
+def run_programs(R, J, rng, MB, built, objs1, objs2, members, trees, K, ks):
+    builtset = set(built)
+    oall = [('obj', Li, g, 'obj') for (Li, g) in objs1] + [('obj', Li, g, 'raw') for (Li, g) in objs1 if fheight(g) == 1]
+    o2 = [('obj', Li, g, m) for (Li, g) in objs2 for m in ('obj', 'raw')]
+    oall += rng.sample(o2, min(len(o2), 6000 if R.thorough else 600))
+    oby = {L: [o for o in oall if o[1] == L] for L in LANGS}
+    progs, pseen = [], set()
+
+    def addp(e):
+        if e not in pseen:
+            pseen.add(e)
+            progs.append(e)
+    # small scope, complete: x & y, x | y (hence also the reflected forms), ~x, x.clone() over a pool of objects of every kind
+    # (atoms, constants, state / path / quantified formulas of every module, object- and raw-built) and the raw operands
+    P_, Q_ = ('ap', 'p'), ('ap', 'q')
+    shapes = [P_, ('false',), ('not', P_), ('or', P_, Q_), ('X', P_), ('U', P_, Q_), ('A', ('X', P_)), ('E', ('F', P_)), ('A', ('not', P_)), ('A', ('G', ('F', P_)))]
+    pool = [('obj', L, g, m) for L in LANGS for g in shapes for m in (('obj', 'raw') if fheight(g) == 1 else ('obj',)) if (L, g) in builtset]
+    for a in pool + list(RAWS):
+        for b in pool + list(RAWS):
+            if a[0] == 'raw' and b[0] == 'raw':
+                continue
+            addp(('and', a, b))
+            addp(('or', a, b))
+    for a in dict.fromkeys(pool + rng.sample(oall, min(len(oall), 4000 if R.thorough else 500))):
+        addp(('inv', a))
+        addp(('clone', a))
+        addp(('inv', ('clone', a)))
+        if a in pool:
+            for M in LANGS:
+                addp(('cast', M, ('clone', a)))
+    nsmall = len(progs)
+    # chains a & b | c ... (the audit's escape: the operator form of And(a, b, c) must reject what the constructor rejects)
+    nch = 20000 if R.thorough else 2600
+    for _ in range(nch):
+        e = gen_chain(rng, oby, oall)
+        if rng.random() < 0.2:
+            e = ('cast', rng.choice(LANGS), e)
+        addp(e)
+    # trees written as programs
+    nren = 25000 if R.thorough else 3200
+    anyt = [f for f in trees if 1 <= fheight(f) <= 3]
+    for _ in range(nren):
+        L = rng.choice(LANGS)
+        f = rng.choice(members[L]) if rng.random() < 0.55 else rng.choice(anyt)
+        if f[0] in LEAFT:
+            continue
+        e = render(rng, f, L, builtset)
+        if e[0] == 'obj':
+            continue
+        if rng.random() < 0.2:
+            e = ('cast', rng.choice(LANGS), e)
+        addp(e)
+    val, step = model_eval(progs, MB)
+    kinds = collections.Counter()
+    for e in progs:
+        obs, _ = impl_program(e)
+        m = model_obs(val[e])
+        ok = J.built('program', {'lang': step[e], 'expr': e, 'python': estr(e)}, obs, m)
+        kinds[e[0] + (':ok' if m[0] == 'ok' else ':TypeError')] += 1
+        if ok and expr_temporal(e):
+            R.nontriv(('program', e))
+            if obs[0] == 'err' and e[0] in ('and', 'or') and e[1][0] in ('and', 'or'):
+                R.sample({'program': estr(e), 'outcome': obs[1]}, limit=10)
+    # the value of a program handed to the modelcheck functions (with and without a fairness argument)
+    okp = [e for e in progs if val[e][0] == 'ok']
+    gp = rng.sample(okp, min(len(okp), 10000 if R.thorough else 1100))
+    gcs = [(Mn, e, rng.choice((None,) + FAIRS)) for e in gp for Mn in CHECKERS]
+    outs = model_batch_parallel([guard_cmd(Mn, val[e][1], ks, val[e][2]) for (Mn, e, F) in gcs])
+    for (Mn, e, F), o in zip(gcs, outs):
+        m = model_mc(o)
+        Ln, f = val[e][1], val[e][2]
+        machinery((m[0] == 'ok') == PYSTATE[Mn](f), 'program guard %s %s -> %s' % (Mn, fstr(f), m))
+        try:
+            obj = impl_expr(e)
+        except Exception:
+            continue              # already reported above
+        obs = impl_guard(Mn, K, obj, F=F)
+        ok = J.guard({'kind': 'program_guard', 'checker': Mn, 'lang': Ln, 'expr': e, 'python': estr(e), 'F': F}, obs, m,
+                     conservative_ok=cons_guard(Mn, Ln), sets=F is None)
+        if ok and not is_pl(f):
+            R.nontriv(('program_guard', Mn, e, str(F)))
+    R.cov['programs'] = {'small scope (complete)': nsmall, 'total distinct': len(progs), 'by root step and model outcome': dict(kinds),
+                         'handed to modelcheck': len(gcs)}
+
+
+P0, Q0 = ('ap', 'p'), ('ap', 'q')
+NAME_FIXED = (('true', ('true',)), ('false', ('false',)), ('True', ('true',)), ('not p', ('not', P0)), ('(p or q)', ('or', P0, Q0)), ('p and q', ('and', P0, Q0)),
+              ('A(X(p))', ('A', ('X', P0))), ('A X p', ('A', ('X', P0))), ('E', None), ('A', None), ('U', None), ('p U q', ('U', P0, Q0)), ('~p', ('not', P0)),
+              ('p --> q', ('imp', P0, Q0)), ('(p)', P0), (' p', P0), ('', None))
+
+
+def name_session(rng, Ln, f, name):
+    """ONE session: steps on the formula f (may be None), then on atoms named `name` (= the printed form of f), then on f again; the
+    order within each part is random.  Every step is compared with the model; a recorded case carries the steps before it."""
+    at = ('ap', name)
+    xs = [at, ('not', at), ('or', at, ('ap', 'q'))]
+    fsteps = [] if f is None else [['cast', Ln, f, Mn] for Mn in LANGS] + [['guard', Mn, Ln, f] for Mn in CHECKERS]
+    fsteps += [] if f is None else [['apply', Mn, op, Ln, f] for Mn in LANGS if Mn != Ln for op in ('not', 'A')]
+    asteps = [['cast', Ln, x, Mn] for x in xs for Mn in LANGS] + [['guard', Mn, Ln, at] for Mn in CHECKERS]
+    asteps += [['apply', Mn, op, Ln, at] for Mn in LANGS if Mn != Ln for op in ('not', 'A')]
+    f2 = [st for st in fsteps if st[0] != 'guard']
+    rng.shuffle(fsteps)
+    rng.shuffle(asteps)
+    rng.shuffle(f2)
+    return fsteps + asteps + f2
+
+
+def step_cmd(st, ks):
+    if st[0] == 'cast':
+        return ['cast', st[3], [st[1], fsx(st[2])]]
+    if st[0] == 'apply':           # a foreign operand: the operator of module st[1] casts it
+        return apply_cmd(st[1], st[2], [('obj', st[3], st[4])])
+    return guard_cmd(st[1], st[2], ks, st[3])
+
+
+def step_impl(st, K):
+    if st[0] == 'cast':
+        return impl_cast(st[1], st[2], st[3])
+    if st[0] == 'apply':
+        obs, _, _, untouched = impl_apply(st[1], st[2], [('obj', st[3], st[4])])
+        return obs, untouched
+    return impl_guard(st[1], K, build(st[3], lang_module(st[2]))), True
+
+
+def run_names(R, J, rng, built, K, ks):
+    cand = [b for b in built if 1 <= fheight(b[1]) <= 2]
+    sessions = []
+    for (Ln, f) in rng.sample(cand, min(len(cand), 800 if R.thorough else 110)):
+        r = call(lambda: str(build(f, lang_module(Ln))))
+        if r[0] == 'ok' and isinstance(r[1], str) and all(ord(c) < 256 for c in r[1]):
+            sessions.append(name_session(rng, Ln, f, r[1]))
+    bs = set(built)
+    for name, f in NAME_FIXED:
+        for Ln in (LANGS if R.thorough else rng.sample(LANGS, 2)):
+            sessions.append(name_session(rng, Ln, f if (Ln, f) in bs else None, name))
+    outs = iter(model_batch_parallel([step_cmd(st, ks) for ses in sessions for st in ses]))
+    n = 0
+    for ses in sessions:
+        for i, st in enumerate(ses):
+            o = next(outs)
+            n += 1
+            if st[0] == 'cast':
+                obs, same = step_impl(st, K)
+                ok = J.built('cast', {'lang': st[1], 'target': st[3], 'tree': st[2], 'tree_str': fstr(st[2]), 'mode': 'obj', 'prelude': ses[:i]},
+                             obs, model_built(o), untouched=same)
+                if ok:
+                    R.nontriv(('names-cast',) + tuple(map(str, st)))
+            elif st[0] == 'apply':
+                obs, same = step_impl(st, K)
+                J.built('apply', {'lang': st[1], 'op': st[2], 'operands': [['obj', st[3], st[4]]], 'prelude': ses[:i],
+                                  'python': '%s.%s(<%s object %s>)' % (st[1], PYNAME[st[2]], st[3], fstr(st[4]))}, obs, model_built(o), untouched=same)
+            else:
+                obs, _ = step_impl(st, K)
+                J.guard({'kind': 'guard', 'checker': st[1], 'lang': st[2], 'tree': st[3], 'tree_str': fstr(st[3]), 'prelude': ses[:i]}, obs, model_mc(o),
+                        conservative_ok=cons_guard(st[1], st[2]))
+    R.cov['atoms_named_like_formulas'] = {'sessions': len(sessions), 'steps': n}
+
+
 def run_apply(R, J, acases, corpus=False):
     outs = model_batch_parallel([apply_cmd(Ln, op, ods) for (Ln, op, ods) in acases])
     for (Ln, op, ods), o in zip(acases, outs):
@@ -590,11 +1161,11 @@ def run_apply(R, J, acases, corpus=False):
         machinery((m[0] == 'ok') == pymember(Ln, f), 'apply %s %s -> %s' % (Ln, fstr(f), m[0]))
         obs, o2, miss, untouched = impl_apply(Ln, op, ods)
         data = {'lang': Ln, 'op': op, 'operands': [list(od) for od in ods],
-                'python': '%s.%s(%s)' % (Ln, PYNAME[op], ', '.join(repr(od[1]) if od[0] == 'raw' else '<%s object %s>' % (od[1], fstr(od[2])) for od in ods))}
+                'python': '%s.%s(%s)' % (Ln, PYNAME[op], ', '.join(repr(od[1]) if od[0] == 'raw' else '<%s object %s%s>' % (od[1], fstr(od[2]), ' built from raw operands' if od[0] == 'rawobj' else '') for od in ods))}
         ok = J.built('apply', data, obs, m, untouched=untouched)
         if corpus:
             R.count('corpus_cases')
-        foreign = any(od[0] == 'obj' and od[1] != Ln for od in ods)
+        foreign = any(od[0] != 'raw' and od[1] != Ln for od in ods)
         if ok and (foreign or any(od[0] == 'raw' for od in ods)) and not is_pl(f):
             R.nontriv(('apply', Ln, op, tuple(map(tuple, ods))))
             if foreign and obs[0] == 'ok' and Ln == 'CTL':
@@ -609,9 +1180,18 @@ def replay(R, data):
     kind = d['kind']
     K = kd_py(KD)
     ks = kripke_sx(K)
+    F = d.get('F')
+    mode = d.get('mode', 'obj')
+    sets = F is None
+    for st in d.get('prelude', []):      # the earlier steps of the session (atoms named like formulas)
+        st = [detuple(x) for x in st]
+        print('first:', st[0], [('atom ' if x[0] == 'ap' else '') + repr(fstr(x)) if isinstance(x, tuple) else x for x in st[1:]], '->', step_impl(st, K)[0])
     if kind == 'construct':
         f = detuple(d['tree'])
-        obs, _, _ = impl_construct(d['lang'], f)
+        if mode == 'raw':
+            obs, _, _ = guarded(lambda: build_raw(f, lang_module(d['lang'])))
+        else:
+            obs, _, _ = impl_construct(d['lang'], f)
         m = model_build_all([(d['lang'], f)], {})[(d['lang'], f)]
     elif kind == 'apply':
         ods = [tuple(detuple(x)) for x in d['operands']]
@@ -620,24 +1200,45 @@ def replay(R, data):
         print('call :', d.get('python'), '' if untouched else '(operands MODIFIED)')
     elif kind == 'cast':
         f = detuple(d['tree'])
-        obs, same = impl_cast(d['lang'], f, d['target'])
+        obs, same = impl_cast(d['lang'], f, d['target'], mode=mode)
         m = model_built(model_batch([['cast', d['target'], [d['lang'], fsx(f)]]])[0])
+        if not same:
+            print('the cast object was MODIFIED')
+    elif kind == 'program':
+        e = detuple(d['expr'])
+        print('call :', estr(e))
+        obs, _ = impl_program(e)
+        m = model_obs(model_eval([e], {})[0][e])
+    elif kind == 'program_guard':
+        e = detuple(d['expr'])
+        print('call : %s.modelcheck(K, %s%s)' % (d['checker'], estr(e), '' if F is None else ', F=%s' % fair_arg(F)))
+        v = model_eval([e], {})[0][e]
+        obs = impl_guard(d['checker'], K, impl_expr(e), F=F)
+        m = model_mc(model_batch([guard_cmd(d['checker'], v[1], ks, v[2])])[0])
     elif kind == 'guard':
         if d.get('structure'):
             from pyModelChecking.kripke import Kripke as _Kripke
             K = _Kripke() if 'empty' in d['structure'] else _Kripke(R=[(0, 0)], L={0: ['p']})
             ks = kripke_sx(K)
         f = detuple(d['tree'])
-        obs = impl_guard(d['checker'], K, build(f, lang_module(d['lang'])))
+        obs = impl_guard(d['checker'], K, build_mode(f, lang_module(d['lang']), mode), F=F)
         m = model_mc(model_batch([guard_cmd(d['checker'], d['lang'], ks, f)])[0])
     elif kind == 'guard_text':
-        obs = impl_guard(d['checker'], K, d['text'], text=True)
+        obs = impl_guard(d['checker'], K, d['text'], text=True, F=F)
         p = model_batch([['parse', d['checker'], Q(d['text'])]])[0]
         m = ('err', str(p[1])) if p[0] != 'ok' else model_mc(model_batch([guard_cmd(d['checker'], d['checker'], ks, fparse(p[1]))])[0])
+    elif kind == 'nonkripke':
+        X = dict(non_kripkes()).get(d['first_argument'])
+        obs = impl_guard(d['checker'], X, nonk_arg(d['checker'], d['lang'], d['formula']), text=str(d['formula']).startswith('text'), F=F)
+        m = ('err', 'TypeError')
+        sets = True
     else:
-        print('non-Kripke case: re-run the check (monitored directly, no model)')
+        print('unknown kind of case: re-run the check')
         obs = m = None
-    print('case :', {k: v for k, v in d.items() if k not in ('impl', 'model')})
+    if obs is not None and not sets:        # a fairness argument was given: accepted / rejected is what is compared
+        obs = ('ok', '<a set>') if obs[0] == 'ok' else obs
+        m = ('ok', '<a set>') if m[0] == 'ok' else m
+    print('case :', {k: v for k, v in d.items() if k not in ('impl', 'model', 'prelude')})
     print('impl :', obs)
     print('model:', m)
     if obs is not None and tuple(obs) != tuple(m):
